@@ -1146,7 +1146,36 @@ def mon_C14(case):
     return out
 
 
-MONITORS = {"C05": mon_C05, "C04": mon_C04, "C01": mon_C01, "C02": mon_C02, "C03": mon_C03, "C06": mon_C06, "C07": mon_C07, "C08": mon_C08, "C09": mon_C09,
+# ------------------------------------------------------------------------------------------------ C19 (tags of group topics)
+
+def mon_C19(case):
+    """the tags stored with a topic: normalised (lower case, sorted, no duplicates, 2..96 characters, first character a letter or a
+    digit), changed only by a {set tags} of the owner, and never gaining or losing a tag of the immutable namespace `basic:`"""
+    out = []
+    for i, (o, ln) in enumerate(zip(case.ops, case.lines)):
+        if ln.plain is not None:
+            continue
+        w = o.split(" ")
+        pre = prev_state(case, i)
+        for t, row in ln.store.items():
+            tags = [x for x in (row["tags"] or "").strip("[]").split(",") if x]
+            prow = pre.store.get(t) if pre else None
+            ptags = [x for x in (prow["tags"] or "").strip("[]").split(",") if x] if prow else None
+            if ptags is not None and ptags == tags:
+                continue
+            if tags != sorted(set(tags)) or any(x != x.lower().strip() or not (2 <= len(x) <= 96) or not x[0].isalnum() for x in tags):
+                out.append((i, f"C19 tags of {t} are stored as {tags}: not normalised"))
+            imm = lambda l: sorted(x for x in l if x.startswith("basic:"))
+            if imm(tags) != imm(ptags or []):
+                out.append((i, f"C19 tags of the immutable namespace of {t} changed from {imm(ptags or [])} to {imm(tags)} by `{w[0]}`"))
+            if ptags is not None and w[0] != "restart":
+                act = case.actor(w) if len(w) > 1 else None
+                if w[0] != "settags" or act is None or act[0] != prow["owner"] or len(w) < 3 or w[2] != t:
+                    out.append((i, f"C19 tags of {t} changed from {ptags} to {tags} by `{w[0]}` of {act[0] if act else '?'} (owner {prow['owner']})"))
+    return out
+
+
+MONITORS = {"C19": mon_C19, "C05": mon_C05, "C04": mon_C04, "C01": mon_C01, "C02": mon_C02, "C03": mon_C03, "C06": mon_C06, "C07": mon_C07, "C08": mon_C08, "C09": mon_C09,
             "C10": mon_C10, "C13": mon_C13, "C14": mon_C14}
 
 
